@@ -382,13 +382,14 @@ impl<'p> Machine<'p> {
                 | Op::AWithMut { .. }
                 | Op::AUnsyncLoad { .. }
                 | Op::Spawn { .. }
+                // park checks the token and blocks before its scheduling point
+                | Op::Park
                 | Op::Unpark { .. }
                 | Op::Unlock { .. }
                 | Op::RUnlock { .. }
                 | Op::WUnlock { .. }
                 | Op::CRead { .. }
                 | Op::CWrite { .. }
-                | Op::TryRecv { .. }
                 | Op::DropTx { .. }
                 | Op::TrackNew { .. }
                 | Op::TrackDrop { .. }
@@ -851,6 +852,11 @@ impl<'p> Machine<'p> {
                     }
                     self.th[t].cv_notified = None;
                     self.th[t].cv_spurious_ok = None;
+                    // permits of earlier notify_one calls are void for this thread's later waits
+                    for (el, _) in self.cv[c as usize].permits.iter_mut() {
+                        el.retain(|&x| x != tid);
+                    }
+                    self.cv[c as usize].permits.retain(|(el, _)| !el.is_empty());
                     let st = &mut self.mutex[m as usize];
                     assert!(st.owner.is_none());
                     st.owner = Some(tid);
